@@ -619,6 +619,46 @@ impl MapSim {
             if hh(m) != hh(&rebuilt) {
                 return Err("hash_ordered differs from a map rebuilt from the model".to_owned());
             }
+            // `==` of SmallMap ignores the order, `eq_ordered` does not: maps holding the same
+            // entries inserted in another order (reversed, rotated, two neighbours swapped - with
+            // adversarial hashes neighbours often share their full hash).
+            let n = self.model.len();
+            if n >= 2 {
+                let mut perms: Vec<Vec<(u32, i64)>> = Vec::new();
+                perms.push(mrev.clone());
+                let mut rot = self.model.clone();
+                rot.rotate_left(1);
+                perms.push(rot);
+                for at in [0, n / 2, n - 2] {
+                    let at = at.min(n - 2);
+                    let mut sw = self.model.clone();
+                    sw.swap(at, at + 1);
+                    perms.push(sw);
+                }
+                for p in &perms {
+                    let mut other: SmallMap<K, V> = SmallMap::new();
+                    for (k, v) in p {
+                        other.insert_hashed(hashed(self.explicit, key(self.mode, *k)), V::new(*v));
+                    }
+                    if *m != other || other != *m {
+                        return Err(format!("== is false for a map with the same entries in another order {:?}", p.iter().map(|x| x.0).collect::<Vec<_>>()));
+                    }
+                    if *p != self.model && m.eq_ordered(&other) {
+                        return Err("eq_ordered is true for a different order".to_owned());
+                    }
+                    // One value changed / one entry missing: not equal.
+                    if let Some(v) = other.values_mut().last() {
+                        v.val += 1;
+                    }
+                    if *m == other {
+                        return Err("== is true although one value differs".to_owned());
+                    }
+                    other.pop();
+                    if *m == other || other == *m {
+                        return Err("== is true although one entry is missing".to_owned());
+                    }
+                }
+            }
             let into: Vec<(u32, i64)> = m.clone().into_iter().map(|(k, v)| (k.id, v.val)).collect();
             if into != self.model {
                 return Err("into_iter of a clone disagrees".to_owned());
